@@ -12,7 +12,7 @@ THEOREMS = 'IsoTp.Props.C09'
 RULE = ('per random address (7 modes x full/rx-only/asymmetric): the expected rx id with every single bit flipped, the other id '
         'type, the tx id, random ids, all 256 first data bytes, empty data (exhaustive per address) compared impl.is_for_me vs the '
         'extracted model predicate (proved equivalent to the documented condition, theorem C09_iff); identifiers/prefix vs model; '
-        'mirrored acceptance; frames through a layer mid-reception; functional/physical sends (bytes and generator payloads) at every length around the single '
+        'mirrored acceptance; frames through a layer mid-reception; functional/physical sends (explicit and through default_target_address_type; bytes and generator payloads) at every length around the single '
         'frame limit for the 8 link sizes. non-trivial = distinct (address, frame) pairs / distinct cases'
         ' (emitted) physical and functional sends, own multi-frame messages and receptions answered with Flow Control, interleaved, with the rate limiter holding frames back: every emitted frame carries the documented identifier (functional only for Single Frames of functional requests). Addresses also carry legal parameters their mode does not use.')
 ASSUME = ['identifiers range over 0 <= id < 2^29 (CAN); non-integer address arguments are covered by C16']
@@ -135,8 +135,12 @@ def run_shard(campaign, shard, nshards, seed, tier):
             for n in sorted({1, 6 - plen, 7 - plen, 8 - plen, cap - 1, cap, cap + 1, cap + 2}):
                 if n < 1:
                     continue
-                for tat in ('F', 'P'):
+                for tat, dflt in (('F', None), ('P', None), ('F', 1), ('P', 1), (None, 1), (None, 0)):
+                    # dflt: default_target_address_type of the layer; an explicit argument always wins, None takes the default
                     params = {'tx_data_length': tx_dl}
+                    if dflt is not None:
+                        params['default_target_address_type'] = dflt
+                    eff = tat if tat is not None else ('F' if dflt == 1 else 'P')
                     if ml is not None:
                         params['tx_data_min_length'] = ml
                     if tx_dl > 8:
@@ -144,9 +148,9 @@ def run_shard(campaign, shard, nshards, seed, tier):
                     for as_gen in (False, True):       # the payload as bytes and as a (generator, size) pair: the limit is on the size
                         send = [0, 'sendgen', tat, n, hx(bytes(range(1, n + 1))), None] if as_gen else [0, 'send', tat, hx(bytes(range(1, n + 1)))]
                         case = {'insts': [{'txa': a, 'rxa': rxa, 'params': params}], 'ops': [send, [0, 'proc', 1, 1]]}
-                        part.hist('functional', '%s/tx_dl=%d/%s%s%s' % (tat, tx_dl, 'fits' if n <= cap else 'toolong', '/asym' if rxmode else '', '/gen' if as_gen else ''))
+                        part.hist('functional', '%s%s/tx_dl=%d/%s%s%s' % (tat, '' if dflt is None else '/default=%d' % dflt, tx_dl, 'fits' if n <= cap else 'toolong', '/asym' if rxmode else '', '/gen' if as_gen else ''))
                         part.distinct(case)
-                        lc.run_case(part, campaign, case, oracle=lambda c, il, ii, cap=cap, n=n, tat=tat, a=a: oracle_functional(c, il, ii, cap, n, tat, a),
+                        lc.run_case(part, campaign, case, oracle=lambda c, il, ii, cap=cap, n=n, tat=eff, a=a: oracle_functional(c, il, ii, cap, n, tat, a),
                                     theorem=THEOREMS + '.C09_func')
             part.sample({'tx_dl': tx_dl, 'mode': mode, 'min_len': ml, 'cap': cap})
     return part.result()
@@ -301,6 +305,11 @@ def oracle_functional(case, lines, insts, cap, n, tat, a):
     else:
         if ev0 != ['send:ok']:
             fails.append(('C09:physical-refused', str(ev0)))
+        else:
+            pid, _, _ = reach({'txa': mirror(a), 'rxa': None})
+            txs = [e for e in ev1 if e.startswith('tx:')]
+            if not txs or int(txs[0].split(':')[1], 16) != pid:
+                fails.append(('C09:physical-id', 'frames %s, expected the first frame with the physical id %x' % (txs[:1], pid)))
     return fails
 
 
